@@ -159,6 +159,55 @@ def previous_routes(neighbor):
     raise RuntimeError('Peer._main: the establishment step is not the one this harness emulates')
 
 
+_MAIN_SHAPE = {}
+
+
+def main_shape():
+    """which of the bookkeeping statements around replace_restart / replace_reload Peer._main really has, read
+    from its source (ast) so that the emulation does what the code does and nothing more:
+      restart_clears : `self.neighbor.previous = None` follows replace_restart(...) before the loop
+      reload_clears  : `self._neighbor.previous = None` follows replace_reload(...) in the loop's reload branch"""
+    if _MAIN_SHAPE:
+        return _MAIN_SHAPE
+    import ast
+    import inspect
+    import textwrap
+    from exabgp.reactor.peer import Peer
+
+    fn = ast.parse(textwrap.dedent(inspect.getsource(Peer._main))).body[0]
+
+    def is_call(stmt, name):
+        return any(isinstance(n, ast.Call) and isinstance(n.func, ast.Attribute) and n.func.attr == name for n in ast.walk(stmt))
+
+    def clears(stmt, target):
+        return (isinstance(stmt, ast.Assign) and len(stmt.targets) == 1 and ast.unparse(stmt.targets[0]) == target
+                and isinstance(stmt.value, ast.Constant) and stmt.value.value is None)
+
+    def after(block, name, target):
+        """in the statement list holding the call `name`, is `target = None` among the statements after it?"""
+        for i, stmt in enumerate(block):
+            if isinstance(stmt, (ast.Expr, ast.Assign)) and is_call(stmt, name):
+                return any(clears(x, target) for x in block[i + 1:])
+            for field in ('body', 'orelse', 'finalbody'):
+                sub = getattr(stmt, field, None)
+                if isinstance(sub, list) and sub and isinstance(sub[0], ast.stmt):
+                    r = after(sub, name, target)
+                    if r is not None:
+                        return r
+            for h in getattr(stmt, 'handlers', []) or []:
+                r = after(h.body, name, target)
+                if r is not None:
+                    return r
+        return None
+
+    rs = after(fn.body, 'replace_restart', 'self.neighbor.previous')
+    rl = after(fn.body, 'replace_reload', 'self._neighbor.previous')
+    if rs is None or rl is None:
+        raise RuntimeError('Peer._main: replace_restart / replace_reload are not where this harness emulates them')
+    _MAIN_SHAPE.update(restart_clears=rs, reload_clears=rl)
+    return _MAIN_SHAPE
+
+
 class Sess:
     """the remote end of one neighbor name + the part of Peer._main that consumes the RIB"""
 
@@ -275,7 +324,8 @@ class Impl:
         n = peer.neighbor
         previous = previous_routes(n)
         n.rib.outgoing.replace_restart(previous, n.routes)
-        n.previous = None
+        if main_shape()['restart_clears']:
+            n.previous = None
         peer.fsm.change(FSM.ESTABLISHED)
         s.up, s.fresh, s.cur, s.buf, s.table = True, True, None, [], {}
         self.trace.append(('establish', self.ids.nbname(key)))
@@ -417,7 +467,8 @@ class Impl:
                 previous = previous_routes(peer._neighbor)
                 current = peer._neighbor.routes
                 peer.neighbor.rib.outgoing.replace_reload(previous, current)
-                peer._neighbor.previous = None
+                if main_shape()['reload_clears']:
+                    peer._neighbor.previous = None
                 peer._neighbor = None
         self.step_obs.append(self.observe()['ribs'])
         return ret, outcome
